@@ -7,13 +7,14 @@
    Vocabulary.  [written_chain t m] = the configs written for mock m = (package, interface,
    index of the configs entry), most specific first: configs entry, interface config, package
    config, top level.  [mock_cfg (init_pure disc (init_pure disc t)) m] = the config mockery
-   uses for m after the two Initialize calls of a run ([run_config_ok]).  [untouched disc pkg]:
-   pkg is not a sub-package discovered below a `recursive` package ([disc] is the discovery
-   result, C07's).  For such discovered sub-packages the package level is, by the code, the
-   recursive parent's config (first call) re-merged with the root (second call): this part of
-   [init_pure] is evaluated in the correspondence runs (streams `main`, `leak`) but the chain
-   theorems below are stated for the packages of the property's chain (configured, not
-   discovered). *)
+   uses for m after the two Initialize calls of a run ([C08_no_panic]).  [disc] is the result of
+   sub-package discovery below `recursive` packages (C07's).  [untouched disc pkg]: pkg is not
+   discovered below a recursive package.  The scalar theorem holds for every configured package;
+   the map-valued ones (template-data, replace-type) are stated under [untouched], because for
+   a sub-package of a recursive package the code adds the recursive package's config as one more,
+   lowest-priority level that the property's chain does not name
+   ([C08_recursive_parent_is_a_level]); that part of [init_pure] is evaluated in the
+   correspondence runs (streams `main`, `leak`). *)
 From Coq Require Import ZArith.
 From Mk Require Import Lib.Bytes Cfg.Json Cfg.Json_proofs Cfg.Config Cfg.Config_proofs.
 
@@ -25,13 +26,19 @@ Theorem C08_no_panic : forall disc env file flags pkgs,
 Proof. intros. apply run_config_ok. apply root_total. Qed.
 Print Assumptions C08_no_panic.
 
-(* Every scalar (pointer) parameter: the value set at the most specific level that sets it,
-   searching configs entry, interface config, package config, top level. *)
-Theorem C08_scalar : forall disc t m c p,
-  untouched disc (m_pkg m) ->
+(* Every scalar (pointer) parameter of every mock of every configured package - discovered by a
+   recursive package or not: the value set at the most specific level that sets it, searching
+   configs entry, interface config, package config, top level (the top level is total by
+   C08_sources, so the search always ends with a value). *)
+Theorem C08_scalar : forall disc env file flags pkgs m c p,
+  let t := {| t_root := new_root_config env file flags; t_pkgs := pkgs |} in
+  has_key (m_pkg m) pkgs = true ->
   mock_cfg (init_pure disc (init_pure disc t)) m = Some c ->
   c_ptr c p = first_some (map (fun x => c_ptr x p) (written_chain t m)).
-Proof. intros disc t m c p Hu Hc. exact (scalar_first_set disc t m c Hu Hc p). Qed.
+Proof.
+  intros disc env file flags pkgs m c p t Hk Hc.
+  apply (scalar_first_set_all disc t m c p); [apply root_total | exact Hk | exact Hc].
+Qed.
 Print Assumptions C08_scalar.
 
 (* ... and the top level itself: flags > file > environment > defaults; the defaults set every
@@ -161,6 +168,34 @@ Proof.
 Qed.
 Print Assumptions C08_levels_mock_and_package.
 
+(* The hypothesis [untouched] of the map-valued theorems cannot be dropped: for a configured
+   package that a recursive package also discovers, the code merges the recursive package's
+   config into it (RootConfig.Initialize, second loop), so template-data (and replace-type)
+   entries of the recursive package are visible below the top level's - a level the property's
+   chain does not name.  (Scalars are not affected: C08_scalar.)  [untouchedb] is the boolean
+   form of the guard. *)
+Theorem C08_recursive_parent_is_a_level :
+  exists disc t m c path,
+    untouchedb disc (m_pkg m) = false /\
+    mock_cfg (init_pure disc (init_pure disc t)) m = Some c /\
+    look path (tdj c) <> resolve path (map tdj (written_chain t m)).
+Proof.
+  exists [(B "m/p", [B "m/p/sub"])].
+  exists {| t_root := default_cfg;
+            t_pkgs := [(B "m/p", {| pc_config := {| c_ptr := ptr_of [(PRecursive, SBool true)];
+                                                    c_td := [(B "fromp", JNum 1)]; c_rt := []; c_esr := None |};
+                                    pc_ifaces := [] |});
+                       (B "m/p/sub", empty_pcfg)] |}.
+  exists {| m_pkg := B "m/p/sub"; m_iface := B "A"; m_idx := 0 |}.
+  eexists. exists [B "fromp"].
+  split; [reflexivity|]. split; [vm_compute; reflexivity|]. vm_compute. discriminate.
+Qed.
+Print Assumptions C08_recursive_parent_is_a_level.
+
+Theorem C08_guard_boolean : forall disc pkg, untouchedb disc pkg = true -> untouched disc pkg.
+Proof. exact untouchedb_spec. Qed.
+Print Assumptions C08_guard_boolean.
+
 (* Non-vacuity: a tree with four levels, nested template-data with a kind conflict, and
    replace-type written at the top; the mock of the second configs entry. *)
 Example C08_example :
@@ -175,6 +210,7 @@ Example C08_example :
                                                                ic_configs := [empty_cfg;
                                                                               cfgs PDir (B "d-entry") [(B "nest", JObj [(B "e", JNum 3)])] []] |})] |});
                          (B "m/q", empty_pcfg)] |} in
+  untouchedb [(B "m/q", [B "m/q/sub"])] (B "m/p") = true /\
   match run_config [] t with
   | Ok t2 =>
     match mock_cfg t2 {| m_pkg := B "m/p"; m_iface := B "A"; m_idx := 1 |} with
@@ -188,4 +224,4 @@ Example C08_example :
     end
   | Panic => False
   end.
-Proof. vm_compute. reflexivity. Qed.
+Proof. vm_compute. split; reflexivity. Qed.
